@@ -45,12 +45,15 @@ func NewOrderedPartition(n, m int, vertexClasses [][]int) *CanonicalOrderedParti
 		binDividers = binDividers[:len(vertexClasses)]
 		index := 0
 		for i := range vertexClasses {
+			binStart := index
 			for j := range vertexClasses[i] {
 				v := vertexClasses[i][j]
 				order[index] = v
 				inCell[v] = i
 				index++
 			}
+			//The order must be sorted within each bin.
+			ints.Sort(order[binStart:index])
 			binDividers[i] = index
 		}
 	}
@@ -98,12 +101,15 @@ func (op *CanonicalOrderedPartition) Reset(n, m int, vertexClasses [][]int) {
 		op.binDividers = op.binDividers[:len(vertexClasses)]
 		index := 0
 		for i := range vertexClasses {
+			binStart := index
 			for j := range vertexClasses[i] {
 				v := vertexClasses[i][j]
 				op.order[index] = v
 				op.inCell[v] = i
 				index++
 			}
+			//The order must be sorted within each bin.
+			ints.Sort(op.order[binStart:index])
 			op.binDividers[i] = index
 		}
 	}
